@@ -48,12 +48,30 @@ THEOREMS = [
     'C20.localMaxima_sorted',
     # units of length
     'C20.unitOf_scale_invariant', 'C20.unitTangent_scale_invariant', 'C20.arccoord_scale', 'C20.stepRow_homogeneous',
+    # fixed points of the moves and of a whole step; what the stopping test of relax means
+    'C20.climbrate_norm_sq', 'C20.climbRow_fixed_of_critical', 'C20.climbRow_euler_fixed_iff',
+    'C20.unitTangentOf_length', 'C20.icoord_length', 'C20.icoord_getElem?',
+    'C20.stringStep_fixed_pinned_critical', 'C20.stringStep_critical_pinned_fixed',
+    'C20.displacement_lt_rows', 'C20.euler_converged_gradient_lt', 'C20.euler_climb_converged_gradient_lt',
+    'C20.relaxPhase_stopped_early', 'C20.relaxPhase_measures_before_last',
 ]
 PARTIAL = {
     'relaxation_converges_to_saddle': 'convergence of the iterated float/spline relaxation is not a '
-    'theorem about this code; stationary strings are proved critical (rate_zero_iff, climb_fixed_point, '
-    'stepRow_euler_fixed_iff, climbRow_euler_fixed_is_critical, iterateRows_critical) and convergence is explored '
-    'on the implementation against analytically known minima, saddle and barrier',
+    'theorem about this code. Proved about its fixed points: an image is left in place by an Euler move (ordinary or '
+    'climbing, unit tangent) iff the gradient vanishes there, both integrators leave critical points in place '
+    '(stepRow_euler_fixed_iff, climbRow_euler_fixed_iff, stepRow_rk_fixed_of_critical, climbRow_fixed_of_critical); a whole '
+    'step = integration + any re-spacing that keeps first, last and climbing rows (stringStep) that returns its string has '
+    'these rows at critical points, and conversely leaves such rows in place (stringStep_fixed_pinned_critical, '
+    'stringStep_critical_pinned_fixed). Proved about the control flow: each phase performs at most the requested steps, '
+    'stops right after the first convergence measure below the tolerance and not later (phaseSteps_*, relaxPhase_*, '
+    'relaxPhase_stopped_early, relaxPhase_measures_before_last), the climbing phase runs whatever the relaxation phase did, '
+    'the climbing images are the first climbpoints interior maxima of the energies after the relaxation phase '
+    '(climbIndices_*); a measure below the tolerance means every kept image moved less than tolerance*timestep and, for '
+    'Euler, that the gradient there is shorter than the tolerance, at climbing images too since the climbing rate has the '
+    'length of the gradient (displacement_lt_rows, euler_converged_gradient_lt, euler_climb_converged_gradient_lt, '
+    'climbrate_norm_sq). Not proved: that the iteration reaches such a string, the interior images, Runge-Kutta fixed points '
+    'being critical (false in general for large steps); convergence is explored on the implementation against analytically '
+    'known minima, saddle and barrier',
     'step_interior_images': 'the cubic-spline re-spacing of the interior images of a step is scipy code outside the model: '
     'the model gives the integrated coordinates and the rows the re-spacing must keep (first, last, climbing images; '
     'the whole path for two images), compared on every step of the operation sequences',
@@ -314,8 +332,19 @@ class Shadow:
     """what the harness knows the object's state to be (independent of the implementation)."""
 
     def __init__(self, coord, poly, g, kw, integ):
-        self.coord, self.poly, self.g, self.kw, self.integ = [list(r) for r in coord], poly, g, kw, integ
+        self.coord, self.poly, self.g, self.integ = [list(r) for r in coord], poly, g, integ
+        self.kwbox = [kw]       # the settings live in a dictionary object; two paths handed the same dictionary share it
         self.shared = False
+        self.handed = None      # the object handed over as `coord` (the caller keeps it and may edit it later)
+        self.alt = None         # the images if edits made through another reference to the same array are seen
+
+    @property
+    def kw(self):
+        return self.kwbox[0]
+
+    @kw.setter
+    def kw(self, v):
+        self.kwbox[0] = v
 
     def copy(self):
         return Shadow(self.coord, self.poly, self.g, self.kw, self.integ)
@@ -420,6 +449,8 @@ def _tangent_condition(rows):
     return k * max(1.0, scale / min(nrm))
 
 
+_READS = ('coord', 'energy', 'grad', 'arc', 'tangent', 'force')
+_COORD_FORMS = ['array', 'array', 'array', 'list', 'tuple', 'float32', 'fortran', 'strided', 'readonly']
 _GNAMES = {'cd': [None, 'cdiff', 'central_difference', 'function'], 'an': ['callable']}
 _INAMES = {'euler': ['euler', 'function'], 'rk': [None, 'rk', 'rungekutta', 'function']}
 
@@ -430,6 +461,32 @@ class Runner:
     def __init__(self):
         self.objs, self.shadows = [], []
         self.cur = None
+        self.lineages = []          # per independently constructed path: index of the object that now stands for it
+        self.first_handed = self.first_kwdict = self.first_box = self.last_kwdict = None
+
+    def sync(self, idx):
+        """after an edit made through another reference to the array the path was built from: the path's images are the
+        old ones or the edited ones as a whole -> 'same' | 'alt' | ('neither', images now)."""
+        np = _np()
+        sh = self.shadows[idx]
+        if sh.alt is None:
+            return 'same'
+        alt, sh.alt = sh.alt, None
+        try:
+            now = np.array(self.objs[idx].coord, dtype=float)
+        except Exception as e:  # noqa
+            return ('neither', f'raised {type(e).__name__}')
+        if now.shape == (sh.n, sh.poly.dim) and np.array_equal(now, np.array(sh.coord, dtype=float)):
+            return 'same'
+        if now.shape == np.array(alt, dtype=float).shape and np.array_equal(now, np.array(alt, dtype=float)):
+            sh.coord = alt
+            return 'alt'
+        return ('neither', now.tolist())
+
+    def peers(self, sh):
+        """shadows of the other live paths that were handed the same coordinate object as `sh`."""
+        return [(i, self.shadows[i]) for i in self.lineages
+                if self.shadows[i] is not sh and sh.handed is not None and self.shadows[i].handed is sh.handed]
 
     # -- implementation side -------------------------------------------------------------
     def _gfx_value(self, g, name):
@@ -452,17 +509,39 @@ class Runner:
 
     @staticmethod
     def _coord_value(rows, how):
+        """the image list in the container `how`: nested list / tuple, float64 / float32 / integer array, Fortran-ordered,
+        a strided view of a larger array, a read-only array (forms that cannot hold the values fall back to a list)."""
         np = _np()
+        a = np.array(rows, dtype=float)
         if how == 'array':
-            return np.array(rows, dtype=float)
-        if how == 'intlist' and all(float(v).is_integer() for r in rows for v in r):
-            return [[int(v) for v in r] for r in rows]
+            return a
+        if how in ('intlist', 'intarray'):
+            if all(float(v).is_integer() for r in rows for v in r):
+                return [[int(v) for v in r] for r in rows] if how == 'intlist' else a.astype(np.int64)
+            return [list(r) for r in rows]
+        if how == 'float32':
+            return a.astype(np.float32) if bool((a.astype(np.float32).astype(float) == a).all()) else [list(r) for r in rows]
+        if how == 'tuple':
+            return tuple(tuple(r) for r in rows)
+        if how == 'fortran' and a.ndim == 2:
+            return np.asfortranarray(a)
+        if how == 'strided' and a.ndim == 2:
+            big = np.full((2 * a.shape[0] + 1, 2 * a.shape[1] + 1), 7.25)
+            big[1::2, 1::2] = a
+            return big[1::2, 1::2]
+        if how == 'readonly':
+            a.setflags(write=False)
+            return a
         return [list(r) for r in rows]
 
-    def build(self, sh, via='create_path', gname=None, iname=None, kwform='dict', coord_as='array'):
+    def build(self, sh, via='create_path', gname=None, iname=None, kwform='dict', coord_as='array', handed=None,
+              kwdict=None, call='kw'):
+        """construct the real path for the shadow `sh`. `handed`: an object handed over before (the same array for two
+        paths); `kwdict`: a settings dictionary handed over before; `call`: keyword or positional arguments."""
         np = _np()
         import atomman.mep as mep
-        coord = self._coord_value(sh.coord, coord_as)
+        coord = self._coord_value(sh.coord, coord_as) if handed is None else handed
+        sh.handed = coord
         kwargs = {}
         gv = self._gfx_value(sh.g, gname)
         if gv is not None:
@@ -470,10 +549,21 @@ class Runner:
         iv = self._ifx_value(sh.integ, iname)
         if iv is not None:
             kwargs['integratorfxn'] = iv
-        if sh.kw is not None or kwform == 'dict':
+        if kwdict is not None:
+            kwargs['gradientkwargs'] = kwdict
+        elif sh.kw is not None or kwform == 'dict':
             kwargs['gradientkwargs'] = self._kwdict(sh.g, sh.kw)
         elif kwform == 'none':
             kwargs['gradientkwargs'] = None
+        self.last_kwdict = kwargs.get('gradientkwargs')
+        if call == 'pos':
+            # (coord, energyfxn, [style,] gradientfxn, gradientkwargs, integratorfxn) in the documented order
+            tail = [kwargs.get('gradientfxn', 'cdiff'), kwargs.get('gradientkwargs'), kwargs.get('integratorfxn', 'rk')]
+            if via == 'create_path':
+                return mep.create_path(coord, sh.poly, 'ISM', *tail)
+            if via == 'create_path_style':
+                return mep.create_path(coord, sh.poly, 'improved_string_method', *tail)
+            return mep.ISMPath(coord, sh.poly, *tail)
         if via == 'create_path':
             return mep.create_path(coord, sh.poly, **kwargs)
         if via == 'create_path_style':
@@ -481,17 +571,27 @@ class Runner:
         return mep.ISMPath(coord, sh.poly, **kwargs)
 
     @staticmethod
-    def observe(p):
+    def observe(p, order=None, keep=None):
+        """read the path's attributes in the given order (default: all six); afterwards the coordinates once more and the
+        settings dictionary (reads must not write). `keep` receives the very objects the reads returned."""
         np = _np()
         out = {}
-        reads = (('coord', lambda: p.coord), ('energy', lambda: p.energy()), ('grad', lambda: p.grad_energy()),
-                 ('arc', lambda: p.arccoord), ('tangent', lambda: p.unittangent), ('force', lambda: p.force))
+        reads = {'coord': lambda: p.coord, 'energy': lambda: p.energy(), 'grad': lambda: p.grad_energy(),
+                 'arc': lambda: p.arccoord, 'tangent': lambda: p.unittangent, 'force': lambda: p.force}
         with np.errstate(all='ignore'):
-            for name, f in reads:
+            for name in (order or _READS):
                 try:
-                    out[name] = np.array(f(), dtype=float)
+                    raw = reads[name]()
+                    out[name] = np.array(raw, dtype=float)
+                    if keep is not None:
+                        keep[name] = raw
                 except Exception as e:  # noqa: the implementation's exception is an observation
                     out[name] = ('raise', type(e).__name__)
+            try:
+                out['coord_after'] = np.array(p.coord, dtype=float)
+                out['kwargs'] = dict(p.gradientkwargs)
+            except Exception as e:  # noqa
+                out['coord_after'] = ('raise', type(e).__name__)
         return out
 
     def do(self, op):
@@ -499,15 +599,32 @@ class Runner:
         np = _np()
         kind = op['op']
         if kind == 'new':
-            sh = Shadow(op['coord'], Poly(**op['poly']), op['g'], op['kw'], op['integ'])
+            share = op.get('share') or {}
+            first = self.shadows[self.lineages[0]] if self.lineages else None
+            handed = kwdict = None
+            coord = op['coord']
+            if first is not None and share.get('coord') and isinstance(self.first_handed, (list, tuple, np.ndarray)):
+                handed = self.first_handed          # the very same object for both paths
+                coord = np.array(handed, dtype=float).tolist()
+            sh = Shadow(coord, Poly(**op['poly']), op['g'], op['kw'], op['integ'])
+            if first is not None and share.get('kw') and isinstance(self.first_kwdict, dict):
+                kwdict = self.first_kwdict
+                sh.kwbox = self.first_box           # settings of both paths live in one dictionary
             try:
                 p = self.build(sh, op.get('via', 'create_path'), op.get('gname'), op.get('iname'),
-                               op.get('kwform', 'dict'), op.get('coord_as', 'array'))
+                               op.get('kwform', 'dict'), op.get('coord_as', 'array'), handed=handed, kwdict=kwdict,
+                               call=op.get('call', 'kw'))
             except Exception as e:  # noqa
                 return ('raise', type(e).__name__, str(e)[:200])
+            if not self.lineages:
+                self.first_handed, self.first_kwdict, self.first_box = sh.handed, self.last_kwdict, sh.kwbox
             self.objs.append(p)
             self.shadows.append(sh)
             self.cur = len(self.objs) - 1
+            self.lineages.append(self.cur)
+            return 'ok'
+        if kind == 'switch':
+            self.cur = self.lineages[op['to'] % len(self.lineages)]
             return 'ok'
         p, sh = self.objs[self.cur], self.shadows[self.cur]
         try:
@@ -519,17 +636,48 @@ class Runner:
     def _do(self, op, kind, p, sh):
         np = _np()
         if kind == 'obs':
-            return self.observe(p)
+            return self.observe(p, order=op.get('order'))
+        if kind == 'scribble':
+            # read, then overwrite the arrays that were returned (all but .coord, which is the path's own array by design)
+            keep = {}
+            res = self.observe(p, order=op.get('order'), keep=keep)
+            for name, raw in keep.items():
+                if name != 'coord' and isinstance(raw, np.ndarray) and raw.flags.writeable and raw.dtype.kind == 'f':
+                    raw[...] = raw * -3.0 + 7.5
+            return res
         if kind == 'set_coord':
-            p.coord = self._coord_value(op['coord'], op.get('as', 'array'))
+            value = self._coord_value(op['coord'], op.get('as', 'array'))
+            p.coord = value
             sh.coord = [list(r) for r in op['coord']]
             sh.shared = False
+            sh.handed, sh.alt = value, None
             return 'ok'
         if kind == 'edit_row':
-            if p.coord.dtype.kind != 'f':
+            if p.coord.dtype.kind != 'f' or not p.coord.flags.writeable:
                 return 'skipped'        # in-place edit of an integer array would truncate: not an operation of the model
             p.coord[op['i']] = op['row']
             sh.coord[op['i']] = list(op['row'])
+            for _, other in self.peers(sh):     # another path built from the same array may or may not see the edit
+                base = other.alt if other.alt is not None else other.coord
+                if len(base) == len(sh.coord):
+                    other.alt = [list(r) for r in base]
+                    other.alt[op['i']] = list(op['row'])
+            return 'ok'
+        if kind == 'caller_edit':
+            # the caller edits the object it handed over as `coord`: the path either sees the whole edit or none of it
+            h = sh.handed
+            if isinstance(h, np.ndarray):
+                if not h.flags.writeable or h.dtype.kind != 'f' or h.shape != (sh.n, sh.poly.dim):
+                    return 'skipped'
+                h[op['i']] = op['row']
+            elif isinstance(h, list) and len(h) == sh.n:
+                h[op['i']] = list(op['row'])
+            else:
+                return 'skipped'
+            for _, other in [(self.cur, sh)] + self.peers(sh):
+                base = other.alt if other.alt is not None else other.coord
+                other.alt = [list(r) for r in base]
+                other.alt[op['i']] = [float(v) for v in op['row']]
             return 'ok'
         if kind == 'set_gfx':
             p.gradientfxn = self._gfx_value(op['g'], op.get('name'))
@@ -563,32 +711,61 @@ class Runner:
             elif attr == 'integratorfxn:type':
                 p.integratorfxn = 0.5
             return 'accepted'
-        if kind == 'energy_at':
-            return np.array(p.energy(np.array(op['pts'], dtype=float)), dtype=float)
-        if kind == 'grad_at':
-            return np.array(p.grad_energy(np.array(op['pts'], dtype=float)), dtype=float)
+        if kind in ('energy_at', 'grad_at'):
+            pts = self._coord_value(op['pts'], op.get('as', 'array'))
+            keep = np.array(pts, dtype=float) if isinstance(pts, np.ndarray) else None
+            out = np.array((p.energy if kind == 'energy_at' else p.grad_energy)(pts), dtype=float)
+            if keep is not None and not np.array_equal(np.array(pts, dtype=float), keep):
+                return ('raise', 'InputModified', f'the coordinate array handed to {kind} was changed: {keep.tolist()} -> '
+                        f'{np.array(pts, dtype=float).tolist()}')
+            return out
         if kind == 'defaults':
             return np.array([p.default_timestep, p.default_tolerance], dtype=float)
         if kind == 'interp':
             arc = np.array(p.arccoord, dtype=float)
             w = op['where']
+            L = arc[-1]
             a = {'knots': arc.copy(), 'mid': np.concatenate([arc[:1], (arc[1:] + arc[:-1]) / 2, arc[-1:]]),
-                 'below': np.array([-0.25, arc[-1] / 2]), 'above': np.array([arc[-1] / 2, arc[-1] * 1.25 + 0.5])}[w]
+                 'below': np.array([-0.25 * L, L / 2]), 'above': np.array([L / 2, L * 1.25]),
+                 'hair-below': np.array([-L * 2.0 ** -30, L / 2]), 'hair-above': np.array([L / 2, np.nextafter(L, np.inf)])}[w]
+            keep = a.copy()
             q = p.interpolate_path(a)
-            return {'coord': np.array(q.coord, dtype=float), 'type': type(q).__name__, 'arc': a,
+            return {'coord': np.array(q.coord, dtype=float), 'type': type(q).__name__, 'arc': keep,
+                    'arc_untouched': bool(np.array_equal(a, keep)),
                     'same': bool(q.energyfxn is p.energyfxn and q.gradientfxn is p.gradientfxn
                                  and q.integratorfxn is p.integratorfxn and dict(q.gradientkwargs) == dict(p.gradientkwargs))}
         if kind in ('step', 'relax'):
-            hkw = {} if op.get('hdefault') else {'timestep': op['h']}
+            import contextlib
+            import io
+            h = _h_form(op['h'], op.get('h_as'))
+            pos = op.get('call') == 'pos'
             if kind == 'step':
-                kw = dict(hkw)
-                if op.get('climb') is not None:
-                    kw['climbindex'] = op['climb']
-                q = p.step(**kw)
+                climb = _climb_form(op.get('climb'), op.get('climb_as'))
+                if pos:
+                    args = [None if op.get('hdefault') else h] + ([] if climb is None else [climb])
+                    q = p.step(*args)
+                else:
+                    kw = {} if op.get('hdefault') else {'timestep': h}
+                    if climb is not None:
+                        kw['climbindex'] = climb
+                    q = p.step(**kw)
             else:
-                q = p.relax(relaxsteps=op['r'], climbsteps=op['c'], tolerance=op.get('tol', 0.0),
-                            verbose=False, **hkw, **({} if op.get('cp') is None else {'climbpoints': op['cp']}))
+                vkw = {} if op.get('verbose', False) is None else {'verbose': False}
+                with contextlib.redirect_stdout(io.StringIO()):
+                    if pos:         # (relaxsteps, climbsteps, timestep, tolerance, climbpoints, verbose) in the documented order
+                        args = [op['r'], op['c'], None if op.get('hdefault') else h, op.get('tol', 0.0)]
+                        if op.get('cp') is not None:
+                            args.append(op['cp'])
+                            if vkw:
+                                args.append(False)
+                                vkw = {}
+                        q = p.relax(*args, **vkw)
+                    else:
+                        hkw = {} if op.get('hdefault') else {'timestep': h}
+                        q = p.relax(relaxsteps=op['r'], climbsteps=op['c'], tolerance=op.get('tol', 0.0),
+                                    **vkw, **hkw, **({} if op.get('cp') is None else {'climbpoints': op['cp']}))
             res = {'coord': np.array(q.coord, dtype=float), 'type': type(q).__name__,
+                   'shares_memory': bool(q is not p and np.shares_memory(q.coord, p.coord)),
                    'same_energyfxn': q.energyfxn is p.energyfxn, 'same_gradientfxn': q.gradientfxn is p.gradientfxn,
                    'same_integratorfxn': q.integratorfxn is p.integratorfxn,
                    'kwargs': dict(q.gradientkwargs)}
@@ -597,56 +774,131 @@ class Runner:
                 return res
             nsh = sh.copy()
             nsh.coord = res['coord'].tolist()
+            if q.gradientkwargs is p.gradientkwargs:
+                nsh.kwbox = sh.kwbox        # the returned path was handed the same settings dictionary
             self.objs.append(q)
             self.shadows.append(nsh)
             res['index'] = len(self.objs) - 1
             if op.get('adopt'):
+                self.lineages = [res['index'] if i == self.cur else i for i in self.lineages]
                 self.cur = res['index']
             return res
         raise ValueError('unknown op ' + kind)
 
 
+def _h_form(h, form):
+    """the time step as Python float (default), numpy float64 / float32 scalar, 0-d array, Python int."""
+    np = _np()
+    if form == 'np64':
+        return np.float64(h)
+    if form == 'np32' and float(np.float32(h)) == h:
+        return np.float32(h)
+    if form == '0d':
+        return np.array(h)
+    if form == 'int' and float(h).is_integer():
+        return int(h)
+    return h
+
+
+def _climb_form(climb, form):
+    """the climbing images as int, numpy integer, list, tuple, integer array (also empty)."""
+    np = _np()
+    if climb is None or form is None:
+        return climb
+    lst = [climb] if isinstance(climb, int) else list(climb)
+    if form == 'int' and len(lst) == 1:
+        return int(lst[0])
+    if form == 'npint' and len(lst) == 1:
+        return np.int64(lst[0])
+    if form == 'tuple':
+        return tuple(lst)
+    if form == 'array':
+        return np.array(lst, dtype=int)
+    if form == 'array32':
+        return np.array(lst, dtype=np.int32)
+    return lst
+
+
 def _gen_sequence(rng, nops, tier_big=False):
-    """a construction followed by `nops` operations (each followed by a full read of the object)."""
+    """one or two constructions followed by `nops` operations (each followed by a read of the object in a random order)."""
     dim = rng.choice([1, 2, 2, 2, 3, 3, 4])
-    n = rng.choice([1, 2, 2, 2, 2, 3, 3, 4, 5, 6])
     poly = _gen_poly(rng, dim, tame=True)
-    g = rng.choice(['cd', 'cd', 'an'])
 
     def gen_kw(g):
         if g == 'cd':
             return rng.choice([None, None, 2.0 ** -10, 2.0 ** -6, 2.0 ** -8, 1e-3, 2.0 ** -12, -2.0 ** -9])
         return rng.choice([None, 1.0, 0.5, -1.0, 2.0, 0.75])
-    integ = rng.choice(['euler', 'rk', 'rk'])
-    ints = rng.random() < 0.15
-    ops = [{'op': 'new', 'via': rng.choice(['create_path', 'ISMPath', 'create_path_style']),
-            'coord': _gen_rows(rng, n, dim, span=4.0, bits=0) if ints else _gen_rows(rng, n, dim),
-            'coord_as': 'intlist' if ints else rng.choice(['array', 'array', 'list']), 'poly': poly.spec(), 'g': g, 'gname': rng.choice(_GNAMES[g]),
-            'kw': gen_kw(g), 'kwform': rng.choice(['dict', 'none', 'absent']), 'integ': integ,
-            'iname': rng.choice(_INAMES[integ])},
-           {'op': 'obs'}]
+
+    def gen_obs():
+        order = list(_READS)
+        how = rng.random()
+        if how < 0.5:
+            rng.shuffle(order)
+        if how < 0.15:
+            order = order[:rng.randint(1, 3)]       # only some attributes are read this time
+        return {'op': 'scribble' if rng.random() < 0.2 else 'obs', 'order': order}
+
+    def gen_new(st, share=None):
+        ints = rng.random() < 0.15
+        n, g = st['n'], st['g']
+        return {'op': 'new', 'via': rng.choice(['create_path', 'ISMPath', 'create_path_style']),
+                'coord': _gen_rows(rng, n, dim, span=4.0, bits=0) if ints else _gen_rows(rng, n, dim),
+                'coord_as': rng.choice(['intlist', 'intarray']) if ints else rng.choice(_COORD_FORMS), 'poly': poly.spec(), 'g': g,
+                'gname': rng.choice(_GNAMES[g]), 'kw': gen_kw(g), 'kwform': rng.choice(['dict', 'none', 'absent']),
+                'integ': st['integ'], 'iname': rng.choice(_INAMES[st['integ']]), 'call': rng.choice(['kw', 'kw', 'pos']),
+                'share': share}
+    sts = [{'n': rng.choice([1, 2, 2, 2, 2, 3, 3, 4, 5, 6]), 'g': rng.choice(['cd', 'cd', 'an']), 'integ': rng.choice(['euler', 'rk', 'rk']),
+            'dictshared': False}]
+    ops = [gen_new(sts[0]), gen_obs()]
+    if rng.random() < 0.3:
+        # a second path, built from the very same coordinate object and/or settings dictionary, or with nothing handed
+        # over for the settings in either (each must then have its own)
+        share = {'coord': rng.random() < 0.6, 'kw': rng.random() < 0.3}
+        st = dict(sts[0]) if (share['coord'] or share['kw']) else {'n': rng.choice([2, 3, 4]), 'g': sts[0]['g'], 'integ': rng.choice(['euler', 'rk']), 'dictshared': False}
+        op = gen_new(st, share)
+        if share['kw']:
+            op['kw'], op['g'] = ops[0]['kw'], ops[0]['g']
+            ops[0]['kwform'] = 'dict'
+            op['gname'] = rng.choice(_GNAMES[op['g']])
+            st['dictshared'] = sts[0]['dictshared'] = True
+        elif rng.random() < 0.6:
+            op['kw'] = ops[0]['kw'] = None
+            op['kwform'] = ops[0]['kwform'] = 'absent'
+        sts.append(st)
+        ops += [op, gen_obs()]
+    k = len(sts) - 1
     for _ in range(nops):
+        if len(sts) > 1 and rng.random() < 0.35:
+            k = 1 - k
+            ops += [{'op': 'switch', 'to': k}, gen_obs()]
+        st = sts[k]
+        n, g = st['n'], st['g']
         r = rng.random()
-        if r < 0.28:
+        if r < 0.25:
             how = rng.random()
             if how < 0.4 or n < 2:
                 n = rng.choice([n, n, max(2, n - 1), n + 1, 2]) if how > 0.2 else n
                 n = max(1, min(7, n))
                 ints = rng.random() < 0.15
                 rows = _gen_rows(rng, n, dim, span=4.0, bits=0) if ints else _gen_rows(rng, n, dim)
-                ops.append({'op': 'set_coord', 'coord': rows, 'as': 'intlist' if ints else rng.choice(['array', 'list']),
+                ops.append({'op': 'set_coord', 'coord': rows, 'as': rng.choice(['intlist', 'intarray']) if ints else rng.choice(_COORD_FORMS),
                             'how': 'fresh'})
+                st['n'] = n
             else:
-                ops.append({'op': 'set_coord', 'how': 'perturb', 'as': rng.choice(['array', 'list']),
+                ops.append({'op': 'set_coord', 'how': 'perturb', 'as': rng.choice(_COORD_FORMS),
                             'i': rng.randrange(n), 'j': rng.randrange(dim),
                             'delta': rng.choice([2.0 ** -3, -2.0 ** -3, 2.0 ** -6, 1.0, -0.5, 2.0 ** -20])})
-        elif r < 0.40 and n >= 1:
+        elif r < 0.36 and n >= 1:
             ops.append({'op': 'edit_row', 'i': rng.randrange(n), 'how': 'perturb', 'j': rng.randrange(dim),
                         'delta': rng.choice([2.0 ** -3, -2.0 ** -3, 2.0 ** -5, 1.0, -0.5])})
-        elif r < 0.52:
+        elif r < 0.42 and n >= 1:
+            ops.append({'op': 'caller_edit', 'i': rng.randrange(n), 'how': 'perturb', 'j': rng.randrange(dim),
+                        'delta': rng.choice([2.0 ** -3, -2.0 ** -3, 2.0 ** -5, 1.0, -0.5])})
+        elif r < 0.52 and not st['dictshared']:
             g = rng.choice(['cd', 'an'])
             ops.append({'op': 'set_gfx', 'g': g, 'name': rng.choice([x for x in _GNAMES[g] if x is not None]),
                         'kw': gen_kw(g)})
+            st['g'] = g
         elif r < 0.62:
             ops.append({'op': 'set_kw', 'kw': gen_kw(g)})
         elif r < 0.68:
@@ -655,25 +907,34 @@ def _gen_sequence(rng, nops, tier_big=False):
         elif r < 0.72:
             ops.append({'op': 'bad_set', 'attr': rng.choice(['energyfxn', 'gradientkwargs', 'gradientfxn:str',
                                                             'integratorfxn:str', 'gradientfxn:type', 'integratorfxn:type'])})
-        elif r < 0.80:
+        elif r < 0.79:
             pts = [[cm.dyadic(rng, -2, 2, 3) for _ in range(dim)] for _ in range(rng.choice([1, 2, 3]))]
-            ops.append({'op': rng.choice(['energy_at', 'grad_at']), 'pts': pts})
-        elif r < 0.83:
+            ops.append({'op': rng.choice(['energy_at', 'grad_at']), 'pts': pts, 'as': rng.choice(_COORD_FORMS)})
+        elif r < 0.81:
             ops.append({'op': 'defaults'})
-        elif r < 0.86 and n >= 2:
-            ops.append({'op': 'interp', 'where': rng.choice(['knots', 'knots', 'mid', 'mid', 'below', 'above'])})
+        elif r < 0.85 and n >= 2:
+            ops.append({'op': 'interp', 'where': rng.choice(['knots', 'knots', 'mid', 'mid', 'below', 'above', 'hair-below', 'hair-above'])})
         elif r < 0.92:
             climb = None
             if n >= 3 and rng.random() < 0.5:
-                k = rng.randrange(1, n - 1)
-                climb = rng.choice([k, [k]]) if n < 5 or rng.random() < 0.7 else sorted({k, rng.randrange(1, n - 1)})
-            ops.append({'op': 'step', 'hrel': rng.choice([0.5, 0.25, 0.125, 0.3]), 'climb': climb,
-                        'adopt': rng.random() < 0.5, 'hdefault': rng.random() < 0.15})
+                i = rng.randrange(1, n - 1)
+                climb = rng.choice([i, [i]]) if n < 5 or rng.random() < 0.7 else sorted({i, rng.randrange(1, n - 1)})
+            elif rng.random() < 0.15:
+                climb = []
+            op = {'op': 'step', 'hrel': rng.choice([0.5, 0.25, 0.125, 0.3]), 'climb': climb,
+                  'climb_as': rng.choice([None, None, 'int', 'npint', 'tuple', 'array', 'array32']),
+                  'h_as': rng.choice([None, None, 'np64', 'np32', '0d']), 'call': rng.choice(['kw', 'kw', 'pos']),
+                  'adopt': rng.random() < 0.5, 'hdefault': rng.random() < 0.15}
+            if rng.random() < 0.08:
+                op.update(hzero=True, hdefault=False)       # a step of length zero: only the re-spacing
+            ops.append(op)
         else:
             ops.append({'op': 'relax', 'r': rng.randint(0, 2), 'c': rng.choice([0, 1, 1, 2]), 'hrel': rng.choice([0.25, 0.125]),
-                        'tolrel': rng.choice([0.0, 0.5, 0.9, 1.5, 4.0]), 'cp': rng.choice([None, None, None, 1, 2, 3]),
+                        'tolrel': rng.choice([0.0, 0.5, 0.9, 1.5, 4.0]), 'cp': rng.choice([None, None, None, 0, 1, 2, 3]),
+                        'h_as': rng.choice([None, None, 'np64', 'np32', '0d']), 'call': rng.choice(['kw', 'kw', 'pos']),
+                        'verbose': rng.choice([False, False, None]),
                         'adopt': rng.random() < 0.5, 'hdefault': rng.random() < 0.15})
-        ops.append({'op': 'obs'})
+        ops.append(gen_obs())
     return ops
 
 
@@ -693,6 +954,8 @@ def _resolve(op, sh):
         op['h'] = 2.0 ** math.floor(math.log2(h)) if op['hrel'] != 0.3 else float(f'{h:.2g}')
         if op.get('hdefault'):      # timestep not given: the path's default 0.05 min(0.2, 1/N)
             op['h'] = float(Fraction(1, 20) * min(Fraction(1, 5), Fraction(1, max(sh.n, 1))))
+        if op.get('hzero'):
+            op['h'] = 0.0
         if op['op'] == 'relax' and 'tol' not in op:
             op['tol'] = 0.0
             if op.get('tolrel') and (sh.n == 2 or op['tolrel'] in (0.5, 0.9)):
@@ -950,13 +1213,33 @@ def _run_sequence(ctx, ops, model_kind, label):
         emit(key, f'{what}  [{label}, after {len(done)} operations: ' + ' > '.join(_brief(o) for o in done[-6:]) + ']',
              {'op': 'path-seq', 'ops': done, 'model': model_kind})
 
+    def resync(idx):
+        # an edit made through another reference to the array a path was built from: seen as a whole or not at all
+        sh_ = runner.shadows[idx]
+        if sh_.alt is None:
+            return True
+        old = [list(r) for r in sh_.coord]
+        how = runner.sync(idx)
+        if isinstance(how, tuple):
+            report('path:alias:coord', f'after an edit of the array the path was built from (through the caller\'s reference or '
+                   f'another path built from the same array) its coordinates are {how[1]}: neither the images before '
+                   f'({old}) nor the edited ones')
+            return False
+        if how == 'alt':
+            out = model.mirror(idx, {'op': 'set_coord', 'coord': sh_.coord}, sh_)
+            if out is not None and out != 'ok':
+                report('path:driver', f'model refused the edited coordinates: {out}')
+        return True
+
     for op in ops:
         if failed[0]:
             break
         if op['op'] != 'new' and runner.cur is None:
             break
+        if runner.cur is not None and not resync(runner.cur):
+            break
         sh = runner.shadows[runner.cur] if runner.cur is not None else None
-        if sh is not None:
+        if sh is not None and op['op'] not in ('new', 'switch'):
             op = _resolve(op, sh)
         if op['op'] == 'edit_row' and sh.shared:
             continue
@@ -975,9 +1258,20 @@ def _run_sequence(ctx, ops, model_kind, label):
                 if not out.startswith('ok'):
                     report('path:driver', f'model refused the construction: {out}')
             continue
-        if kind in ('set_coord', 'edit_row', 'set_gfx', 'set_kw', 'set_integ'):
+        if kind == 'switch':
+            # the other path: its settings may have changed through a dictionary handed to both
+            sh2 = runner.shadows[runner.cur]
+            if resync(runner.cur):
+                out = model.mirror(runner.cur, {'op': 'set_kw', 'kw': sh2.kw}, sh2)
+                if out is not None and out != 'ok':
+                    report('path:driver', f'model refused the settings: {out}')
+            continue
+        if kind in ('set_coord', 'edit_row', 'caller_edit', 'set_gfx', 'set_kw', 'set_integ'):
             if res == 'skipped':
                 done.pop()
+                continue
+            if kind == 'caller_edit' and not raised:
+                resync(idx)
                 continue
             if raised:
                 report(f'path:{kind}-raises', f'{_brief(op)} raised {res[1]}: {res[2]}')
@@ -996,7 +1290,7 @@ def _run_sequence(ctx, ops, model_kind, label):
             if out is not None and out != want_err:
                 report('path:driver', f'model answered {out} to the invalid assignment {op["attr"]}')
             continue
-        if kind == 'obs':
+        if kind in ('obs', 'scribble'):
             _check_obs(ctx, report, model, model_kind, runner, idx, sh, res)
             continue
         if kind in ('energy_at', 'grad_at'):
@@ -1039,9 +1333,12 @@ def _check_interp(ctx, report, model_kind, sh, op, res, raised):
     ctx.stats.case(f'{model_kind}:path-interpolate', (repr(sh.spec()), w), nontrivial=sh.n >= 2)
     if sh.n < 2 or _degenerate(sh.coord):
         return
-    if w in ('below', 'above'):
+    if w in ('below', 'above', 'hair-below', 'hair-above'):
         if not (raised and res[1] == 'ValueError'):
-            report('path:interpolate:range', f'interpolate_path with an arc coordinate {w} the range [0, length] '
+            arc_, _ = _geometry(sh.coord)
+            what = {'below': f'{-0.25 * arc_[-1]!r}', 'above': f'{1.25 * arc_[-1]!r}', 'hair-below': f'{-arc_[-1] * 2.0 ** -30!r}',
+                    'hair-above': 'the next double above the length'}[w]
+            report('path:interpolate:range', f'interpolate_path with the arc coordinate {what} outside the range [0, length = {arc_[-1]!r}] '
                    f'{"raised " + res[1] if raised else "returned a path"} instead of raising ValueError (coord {sh.coord})')
         return
     if raised:
@@ -1049,6 +1346,9 @@ def _check_interp(ctx, report, model_kind, sh, op, res, raised):
         return
     d = sh.poly.dim
     scale = max(1.0, max(abs(v) for r in sh.coord for v in r))
+    if not res.get('arc_untouched', True):
+        report('path:interpolate:input', f'interpolate_path changed the array of arc coordinates it was handed ({res["arc"].tolist()})')
+        return
     if res['type'] != 'ISMPath' or not res['same']:
         report('path:interpolate:settings', f'the path returned by interpolate_path does not carry the functions and settings of the path')
         return
@@ -1074,8 +1374,11 @@ def _check_interp(ctx, report, model_kind, sh, op, res, raised):
 def _brief(op):
     k = op['op']
     if k == 'new':
-        return (f"{op.get('via', 'create_path')}({len(op['coord'])}x{len(op['coord'][0])}, gradientfxn={op.get('gname')}/{op['g']}, "
-                f"kwargs={op['kw']}, integratorfxn={op.get('iname')}/{op['integ']})")
+        sh_ = op.get('share') or {}
+        return (f"{op.get('via', 'create_path')}({len(op['coord'])}x{len(op['coord'][0])} {op.get('coord_as', 'array')}"
+                f"{' (the same object as the first path)' if sh_.get('coord') else ''}, gradientfxn={op.get('gname')}/{op['g']}, "
+                f"kwargs={op['kw']}/{op.get('kwform')}{' (the same dict as the first path)' if sh_.get('kw') else ''}, "
+                f"integratorfxn={op.get('iname')}/{op['integ']}{', positional' if op.get('call') == 'pos' else ''})")
     if k == 'set_coord':
         return f"coord = <{len(op.get('coord', []))} images, {op.get('how')}>"
     if k == 'edit_row':
@@ -1088,12 +1391,21 @@ def _brief(op):
         return f"integratorfxn = {op.get('name')}"
     if k == 'interp':
         return f"interpolate_path({op['where']})"
+    if k == 'switch':
+        return f"<the {'first' if op['to'] == 0 else 'second'} path>"
+    if k == 'caller_edit':
+        return f"<caller's array>[{op['i']}] = {op.get('row')}"
+    if k in ('obs', 'scribble') and op.get('order'):
+        return ('read+scribble ' if k == 'scribble' else 'read ') + '/'.join(op['order'])
     if k == 'bad_set':
         return f"bad {op['attr']}"
     if k == 'step':
-        return f"step(h={'default ' if op.get('hdefault') else ''}{op['h']}, climb={op.get('climb')}{', adopt' if op.get('adopt') else ''})"
+        return (f"step(h={'default ' if op.get('hdefault') else ''}{op['h']}{'/' + op['h_as'] if op.get('h_as') else ''}, climb={op.get('climb')}"
+                f"{'/' + op['climb_as'] if op.get('climb_as') and op.get('climb') is not None else ''}{', positional' if op.get('call') == 'pos' else ''}"
+                f"{', adopt' if op.get('adopt') else ''})")
     if k == 'relax':
         return (f"relax({op['r']},{op['c']},h={'default ' if op.get('hdefault') else ''}{op['h']},tol={op.get('tol', 0.0)}" + (f",climbpoints={op['cp']}" if op.get('cp') is not None else '')
+                + f"{', positional' if op.get('call') == 'pos' else ''}{', verbose default' if op.get('verbose', False) is None else ''}"
                 + f"{', adopt' if op.get('adopt') else ''})")
     return k
 
@@ -1128,7 +1440,9 @@ def _check_obs(ctx, report, model, model_kind, runner, idx, sh, res):
     ctx.stats.case(f'{model_kind}:path-read', (repr(sh.spec()), idx), nontrivial=sh.n >= 2,
                    sample={'op': 'path-read', 'state': sh.spec()})
     illcond = sh.n >= 2 and not (_tangent_condition(sh.coord) < 1e6)
-    for name in ('coord', 'energy', 'grad', 'arc', 'tangent', 'force'):
+    read = [name for name in res if name in _READS]      # in the order in which they were read
+    how = f' [read in the order {", ".join(read)}]' if read != list(_READS) else ''
+    for name in read:
         if illcond and name in ('tangent', 'force'):
             continue        # coincident images / cancelling unit differences: 0/0 in the implementation
         got, exp = res[name], want[name]
@@ -1143,20 +1457,32 @@ def _check_obs(ctx, report, model, model_kind, runner, idx, sh, res):
         bad = -1 if tuple(got.shape) != shapes[name] else _differs(_flat(got), exp, tol[name])
         if bad is not None:
             report(f'path:{name}', f'{names[name]} of the path is {got.tolist()} but its state (coord {sh.coord}, gradient '
-                   f'{sh.g}, settings {sh.kw}) gives {[_fl(w) for w in exp]}' + (f' (first difference at flat index {bad})' if bad >= 0 else ' (shape)'))
+                   f'{sh.g}, settings {sh.kw}) gives {[_fl(w) for w in exp]}' + (f' (first difference at flat index {bad})' if bad >= 0 else ' (shape)') + how)
             return
-    if model_kind == 'oracle':
-        # the same state in a freshly constructed object: bit-identical reads
+    # reads must not write: coordinates and settings after the reads
+    after = res.get('coord_after')
+    if after is not None and (isinstance(after, tuple) or after.shape != shapes['coord']
+                              or not np.array_equal(after, np.array(sh.coord, dtype=float).reshape(shapes['coord']))):
+        report('path:reads-write', f'after reading {", ".join(read)} the coordinates of the path are '
+               f'{after if isinstance(after, tuple) else after.tolist()} instead of {sh.coord}')
+        return
+    if 'kwargs' in res and res['kwargs'] != Runner._kwdict(sh.g, sh.kw):
+        report('path:reads-write', f'after reading {", ".join(read)} the settings dictionary of the path is {res["kwargs"]} instead of '
+               f'{Runner._kwdict(sh.g, sh.kw)}')
+        return
+    pc = getattr(runner.objs[idx], 'coord', None)
+    if model_kind == 'oracle' and getattr(getattr(pc, 'flags', None), 'c_contiguous', False):
+        # the same state in a freshly constructed object: bit-identical reads (same memory layout of the coordinates)
         fresh = Runner.observe(runner.build(sh.copy(), via='ISMPath', gname=('callable' if sh.g == 'an' else 'function'),
                                             iname='function'))
-        for name in ('coord', 'energy', 'grad', 'arc', 'tangent', 'force'):
+        for name in read:
             a, b = res[name], fresh[name]
             same = (a == b) if isinstance(a, tuple) or isinstance(b, tuple) else \
                 (a.shape == b.shape and bool(np.array_equal(a, b, equal_nan=True)))
             if not same:
                 report(f'path:{name}:fresh', f'{names[name]} of the path ({a if isinstance(a, tuple) else a.tolist()}) differs from '
                        f'that of a freshly built path with the same coordinates, functions and settings '
-                       f'({b if isinstance(b, tuple) else b.tolist()})')
+                       f'({b if isinstance(b, tuple) else b.tolist()})' + how)
                 return
 
 
@@ -1331,6 +1657,10 @@ def _check_step(ctx, report, model, model_kind, runner, idx, before, op, res, ra
     if res['type'] != 'ISMPath' or new.shape != (before.n, d):
         report(f'path:{kind}:shape', f'{_brief(op)} returned {res["type"]} with coordinates of shape {new.shape}')
         return
+    if res.get('shares_memory'):
+        report(f'path:{kind}:aliases-self', f'the coordinates of the path returned by {_brief(op)} share memory with those of the '
+               f'path it was called on: an in-place edit of one changes the other')
+        return
     if not (res['same_energyfxn'] and res['same_gradientfxn'] and res['kwargs'] == Runner._kwdict(before.g, before.kw)):
         report(f'path:{kind}:settings', f'the path returned by {_brief(op)} does not carry the energy/gradient functions and '
                f'settings of the path it came from (kwargs {res["kwargs"]})')
@@ -1448,11 +1778,13 @@ def _gen_cd_array(rng, tier_big=False):
         npts *= k
     poly = _gen_poly(rng, d)
     span = rng.choice([1.0, 2.0, 8.0])
-    container = rng.choice(['array', 'array', 'list', 'intlist', 'intarray'])
+    container = rng.choice(['array', 'array', 'list', 'intlist', 'intarray', 'tuple', 'float32array', 'fortranarray', 'stridedarray',
+                            'readonlyarray'])
     bits = 0 if container.startswith('int') else 3
     pts = [[cm.dyadic(rng, -span, span, bits) for _ in range(d)] for _ in range(npts)]
     shift = rng.choice([None, 2.0 ** -3, 2.0 ** -6, 2.0 ** -10, 1e-3, 2.0 ** -2, 0.01, -2.0 ** -5, -1e-3])
-    return {'op': 'cd-array', 'poly': poly.spec(), 'lead': list(lead), 'pts': pts, 'shift': shift, 'container': container}
+    return {'op': 'cd-array', 'poly': poly.spec(), 'lead': list(lead), 'pts': pts, 'shift': shift, 'container': container,
+            'returns': rng.choice(['numpy', 'numpy', 'float', '0d'])}
 
 
 def _cd_array_call(case):
@@ -1464,16 +1796,46 @@ def _cd_array_call(case):
     cont = case.get('container', 'array')
     if cont.startswith('int'):          # evaluation points with integer coordinates given as Python ints / an int array
         X = X.astype(int)
-    arg = X if cont.endswith('array') else X.tolist()
+    elif cont == 'float32array':
+        X = X.astype(np.float32)        # dyadic points with 3 binary digits: exact in single precision
+    elif cont == 'fortranarray':
+        X = np.asfortranarray(X)
+    elif cont == 'stridedarray':
+        big = np.full(tuple(2 * k + 1 for k in X.shape), 7.25)
+        sl = tuple(slice(1, None, 2) for _ in X.shape)
+        big[sl] = X
+        X = big[sl]
+    elif cont == 'readonlyarray':
+        X.setflags(write=False)
+
+    def nest(v):
+        return tuple(nest(t) for t in v) if isinstance(v, list) else v
+    arg = X if cont.endswith('array') else (nest(X.tolist()) if cont == 'tuple' else X.tolist())
     keep = X.copy()
+    # the energy function may return a Python float or a 0-d array for a single point
+    ret = case.get('returns', 'numpy')
+
+    def fxn(v):
+        r = poly(v)
+        if np.ndim(r) == 0 and ret != 'numpy':
+            return float(r) if ret == 'float' else np.asarray(r)
+        return r
+    shift = () if case['shift'] is None else (case['shift'],)
     try:
         with np.errstate(all='ignore'):
-            g = central_difference(poly, arg) if case['shift'] is None else central_difference(poly, arg, case['shift'])
+            g = central_difference(fxn, arg, *shift)
         if cont.endswith('array') and not (arg.dtype == keep.dtype and np.array_equal(arg, keep)):
             bad = np.argwhere(arg != keep)[0]
             return ('mutated', 'input', f'the coordinate array handed in was changed: entry {tuple(int(v) for v in bad)} '
                     f'{keep[tuple(bad)]!r} -> {arg[tuple(bad)]!r}'), poly
-        return np.asarray(g), poly
+        g = np.asarray(g)
+        first = g.copy()
+        with np.errstate(all='ignore'):
+            g2 = np.asarray(central_difference(fxn, np.array(X, dtype=float) * 0.5 + 0.125, *shift))
+        if np.shares_memory(g, g2) or (cont.endswith('array') and np.shares_memory(g, arg)) or not np.array_equal(g, first, equal_nan=True):
+            return ('mutated', 'result', 'the gradient array returned shares memory with the points handed in or with the array '
+                    'returned by the next call'), poly
+        return g, poly
     except Exception as e:  # noqa: an observation
         return ('raise', type(e).__name__, str(e)[:200]), poly
 
@@ -1550,6 +1912,10 @@ def _gen_linear(rng, dim):
 # bit-wise scaled result; decimal factors such as 1e-9 — lengths in metres — to rounding)
 _SCALE_EXPS = [-60, -50, -40, -34, -30, -27, -24, -20, -10, -3, 3, 10, 20, 30, 40, 60]
 _DEC_SCALES = [1e-9, 1e-10, 1e-12, 1e-15, 1e9, 3.0, -1.0, -2.0 ** -30, -1e-9]
+# far out: a linear step forms no squares, so the state may sit anywhere in the double range
+_FAR_EXPS = [-1000, -900, -500, -200, -100, 100, 200, 500, 900]
+# paths: energies and squared lengths go with the square of the unit of length
+_UNIT_EXPS = _SCALE_EXPS + [-300, -200, -100, 100, 200, 300]
 
 
 def _gen_integ_array(rng):
@@ -1561,9 +1927,11 @@ def _gen_integ_array(rng):
     return {'op': 'integ-array',
             'As': [[[cm.dyadic(rng, -2, 2, 2) for _ in range(dim)] for _ in range(dim)] for _ in range(nrows)],
             'Y': [[cm.dyadic(rng, -4, 4, 2) for _ in range(dim)] for _ in range(nrows)],
-            'h': rng.choice([0.5, 0.25, 0.125, 0.0625, 0.1, -0.25]), 'mode': mode,
+            'h': rng.choice([0.5, 0.25, 0.125, 0.0625, 0.1, -0.25, 0.0]), 'mode': mode,
             'gain': rng.choice([0.5, 2.0, -1.0, 0.25, 1.5]) if mode in ('kw-gain', 'kw-both') else 1.0,
-            'exp': rng.choice([0, 0, 0] + _SCALE_EXPS), 'vector': nrows == 1 and rng.random() < 0.5}
+            'exp': rng.choice([0, 0, 0] + _SCALE_EXPS + _FAR_EXPS), 'vector': nrows == 1 and rng.random() < 0.5,
+            'container': rng.choice(['array', 'array', 'list', 'tuple', 'float32', 'intarray', 'fortran', 'strided', 'readonly']),
+            'h_as': rng.choice([None, None, 'np64', 'np32', '0d'])}
 
 
 def _integ_array_call(case, name):
@@ -1592,16 +1960,45 @@ def _integ_array_call(case, name):
         return gain * apply(mats, C)
     rate, kw = {'plain': (rate_plain, {}), 'kw-mats': (rate_mats, {'mats': As}), 'kw-gain': (rate_gain, {'gain': case['gain']}),
                 'kw-both': (rate_both, {'gain': case['gain'], 'mats': As})}[case['mode']]
-    Yin = (Y[0] if vec else Y).copy()
-    keep = Yin.copy()
+    base = (Y[0] if vec else Y).copy()
+    cont = case.get('container', 'array')
+    if cont == 'intarray' and not (case['exp'] == 0 and bool((base == np.rint(base)).all())):
+        cont = 'array'
+    if cont == 'float32' and not bool((base.astype(np.float32).astype(float) == base).all()):
+        cont = 'array'
+    if cont == 'intarray':
+        Yin = base.astype(np.int64)
+    elif cont == 'float32':
+        Yin = base.astype(np.float32)
+    elif cont in ('list', 'tuple'):
+        Yin = Runner._coord_value(base.tolist(), cont) if base.ndim == 2 else (base.tolist() if cont == 'list' else tuple(base.tolist()))
+    elif cont in ('fortran', 'strided', 'readonly') and base.ndim == 2:
+        Yin = Runner._coord_value(base.tolist(), cont)
+    elif cont == 'readonly':
+        Yin = base.copy()
+        Yin.setflags(write=False)
+    else:
+        Yin = base.copy()
+    isarr = isinstance(Yin, np.ndarray)
+    keep = np.array(Yin, dtype=float)
+    h = _h_form(case['h'], case.get('h_as'))
     try:
         with np.errstate(all='ignore'):
-            out = np.asarray(f(rate, Yin, case['h'], **kw), dtype=float)
+            raw = f(rate, Yin, h, **kw)
+            out = np.array(raw, dtype=float)
+            # the result is the caller's: it shares no memory with the input and a second call leaves it alone
+            fresh = not (isarr and isinstance(raw, np.ndarray) and np.shares_memory(raw, Yin))
+            raw2 = f(rate, base * 0.5 + 0.25, h, **kw)
+            if isinstance(raw, np.ndarray) and isinstance(raw2, np.ndarray):
+                fresh = fresh and not np.shares_memory(raw, raw2) and bool(np.array_equal(np.array(raw, dtype=float), out, equal_nan=True))
     except Exception as e:  # noqa: an observation
         return ('raise', type(e).__name__, str(e)[:200]), True
-    if out.shape != Yin.shape:
+    if out.shape != base.shape:
         return ('shape', str(out.shape), ''), True
-    return out.reshape(len(case['Y']), -1), bool(np.array_equal(Yin, keep))
+    if not fresh:
+        return ('alias', 'the array returned shares memory with the input array or with the array returned by the next call', ''), True
+    untouched = bool(np.array_equal(np.array(Yin, dtype=float), keep)) and (not isarr or Yin.dtype == {'intarray': np.int64, 'float32': np.float32}.get(cont, np.float64))
+    return out.reshape(len(case['Y']), -1), untouched
 
 
 def _integ_array_want(case, name):
@@ -1614,7 +2011,7 @@ def _integ_array_want(case, name):
 
 def _integ_array_check(case, name, got, want):
     if isinstance(got, tuple):
-        return f'raised {got[1]}: {got[2]}' if got[0] == 'raise' else f'returned shape {got[1]}'
+        return f'raised {got[1]}: {got[2]}' if got[0] == 'raise' else (got[1] if got[0] == 'alias' else f'returned shape {got[1]}')
     atol = 1e-11 * 2.0 ** case['exp']
     for n, (r, w) in enumerate(zip(got, want)):
         if not cm.allclose(list(r), w, rtol=1e-9, atol=atol):
@@ -1627,7 +2024,8 @@ def _describe_integ_array(case, name):
     how = {'plain': 'the matrices bound in the rate function', 'kw-mats': 'the matrices handed as keyword argument mats= of the step',
            'kw-gain': f'gain={case["gain"]} handed as keyword argument of the step', 'kw-both': f'gain={case["gain"]} and mats= handed as '
            'keyword arguments of the step'}[case['mode']]
-    return (f'{name}(rate, Y, h={case["h"]}, …) on {"a vector" if case.get("vector") else f"an array of {len(case["Y"])} points"} in dimension '
+    return (f'{name}(rate, Y, h={case["h"]}{"/" + case["h_as"] if case.get("h_as") else ""}, …) on '
+            f'{"a vector" if case.get("vector") else f"an array of {len(case["Y"])} points"} ({case.get("container", "array")}) in dimension '
             f'{len(case["Y"][0])} at scale 2^{case["exp"]}, row-wise linear rate y_n\' = g A_n y_n with {how}')
 
 
@@ -1646,8 +2044,22 @@ class _Selection:
             tables[-1] = [float(-abs(i - k)) for i in range(n)]
             if rng.random() < 0.5 and k + 1 < n:
                 tables[-1][k + 1] = tables[-1][k]
+        how = rng.random()
+        last = tables[-1]
+        if how < 0.25:              # two neighbouring images within 2^-20 … 2^-50 (relative) of each other, or of zero
+            i = rng.randrange(n - 1)
+            eps = 2.0 ** -rng.choice([20, 30, 40, 50])
+            last[i + 1] = last[i] * (1 + rng.choice([-1, 1]) * eps) if last[i] else rng.choice([-1, 1]) * eps
+        elif how < 0.35:            # an energy function that overflows / fails on one or two images
+            i = rng.randrange(n)
+            last[i] = rng.choice([float('inf'), float('inf'), float('-inf'), float('nan')])
+            if rng.random() < 0.5 and i + 1 < n:
+                last[i + 1] = last[i]
+        e = rng.choice([0, 0, 0, -1000, -200, -60, -30, 30, 200, 1000])
+        if e:                       # the same energies in another unit (comparisons only: any power of two in range)
+            tables = [[v * 2.0 ** e for v in t] for t in tables]
         return {'op': 'climb-selection', 'n': n, 'relaxsteps': rs, 'climbsteps': cs, 'tables': tables,
-                'climbpoints': rng.choice([None, None, 1, 2, 3, 0, n])}
+                'climbpoints': rng.choice([None, None, 1, 2, 3, 0, n]), 'exp': e}
 
     @staticmethod
     def run(case):
@@ -1674,15 +2086,18 @@ class _Selection:
         path = Scripted(coord, energy, gradientfxn=(lambda f, c: np.zeros_like(c)), gradientkwargs={})
         kw = {} if case['climbpoints'] is None else {'climbpoints': case['climbpoints']}
         try:
-            path.relax(relaxsteps=case['relaxsteps'], climbsteps=case['climbsteps'], timestep=0.5, tolerance=0.0,
-                       verbose=False, **kw)
+            with np.errstate(all='ignore'):
+                path.relax(relaxsteps=case['relaxsteps'], climbsteps=case['climbsteps'], timestep=0.5, tolerance=0.0,
+                           verbose=False, **kw)
         except Exception as e:  # noqa
             return None, ('raise', type(e).__name__, str(e)[:200])
         return case['tables'][min(state['nr'], len(tables) - 1)], state['seen']
 
     @staticmethod
     def want(E, cp):
-        idx = [i for i in range(1, len(E) - 1) if E[i - 1] < E[i] and not E[i] < E[i + 1]]
+        # the documented test in IEEE arithmetic: above the previous image and not below the next one; an image whose
+        # energy is nan, or whose neighbour's energy is nan, is not a maximum (every comparison with nan is false)
+        idx = [i for i in range(1, len(E) - 1) if E[i] > E[i - 1] and E[i] >= E[i + 1]]
         return idx[:(1 if cp is None else cp)]
 
     @staticmethod
@@ -1710,7 +2125,7 @@ def correspond(ctx):
         dim = 1 + it % 6
         A, y, h = _gen_linear(rng, dim)
         An, yn = np.array(A), np.array(y)
-        e = rng.choice(_SCALE_EXPS)
+        e = rng.choice(_SCALE_EXPS + _FAR_EXPS)
         for name, f in (('euler', euler), ('rk', rungekutta)):
             impl = f(lambda c: An @ c, yn, h)
             line = f'{name} {dim} ' + cm.frs(An) + ' ' + cm.frs(yn) + ' ' + cm.fr(h)
@@ -1750,6 +2165,8 @@ def correspond(ctx):
         case = _Selection.gen(rng)
         E, seen = _Selection.run(case)
         cp = 1 if case['climbpoints'] is None else case['climbpoints']
+        if E is not None and not all(math.isfinite(v) for v in E):
+            continue                    # inf / nan energies: outside the ordered field of the model (oracle side only)
         out = ctx.driver.ask(f'climbsel {cp} ' + cm.frs(E)) if E is not None else 'sel'
         want = [int(t) for t in out.split()[1:]] if out.startswith('sel') else None
         ctx.stats.case('climb-selection', repr(case), nontrivial=bool(want), sample=dict(case, chosen=want))
@@ -1947,7 +2364,7 @@ def search(ctx, broken):
     # order of the one-step error: err(h)/err(h/2) -> 2^(p+1), measured with the state at every scale
     for name, f, p in (('euler', euler, 1), ('rungekutta', rungekutta, 4)):
         for a in (1.0, -0.75, 0.5):
-            for y0 in [1.0] + [2.0 ** e for e in _SCALE_EXPS] + [1e-9, 1e-12, 1e9]:
+            for y0 in [1.0] + [2.0 ** e for e in _SCALE_EXPS + _FAR_EXPS] + [1e-9, 1e-12, 1e9]:
                 errs = []
                 for h in (0.2, 0.1, 0.05):
                     errs.append(abs(float(f(lambda c: a * c, np.array([y0]), h)[0]) / y0 - math.exp(a * h)))
@@ -1978,6 +2395,7 @@ def search(ctx, broken):
                         {'op': 'cd-order', 'x': x.tolist(), 'w': w.tolist(), 'e1': float(e1), 'e2': float(e2)})
     _search_cd_arrays(ctx, rng, broken)
     _search_units(ctx, rng, broken)
+    _search_refusals(ctx, rng)
     _search_paths(ctx, rng, broken)
     _search_relax(ctx, rng)
 
@@ -1994,7 +2412,7 @@ def _search_scales(ctx, rng, broken):
         An, yn = np.array(A), np.array(y)
         if not (An.any() and yn.any()):
             continue
-        factors = [2.0 ** e for e in rng.sample(_SCALE_EXPS, 4)] + [rng.choice(_DEC_SCALES)]
+        factors = [2.0 ** e for e in rng.sample(_SCALE_EXPS, 3) + rng.sample(_FAR_EXPS, 2)] + [rng.choice(_DEC_SCALES)]
         for name, f, deg in (('euler', euler, 1), ('rungekutta', rungekutta, 4)):
             try:
                 base = np.asarray(f(lambda c: An @ c, yn.copy(), h), dtype=float)
@@ -2022,7 +2440,7 @@ def _search_scales(ctx, rng, broken):
                     ctx.violate(f'{name}:homogeneity', f'{name} on y\'=Ay, A = {A}, h = {h}: the step from c·y is not c times the step '
                                 f'from y for c = {c!r}, y = {y}: {impl.tolist()} against {(base * c).tolist()}', info)
             # another unit of time
-            e = rng.choice(_SCALE_EXPS)
+            e = rng.choice(_SCALE_EXPS + _FAR_EXPS)
             At, ht = An * 2.0 ** e, h * 2.0 ** -e
             ctx.stats.case('oracle:' + name + ':time-unit', (A, y, h, e))
             try:
@@ -2043,7 +2461,7 @@ def _search_scales(ctx, rng, broken):
         if not (An @ An @ np.array(y)).any():
             continue
         nrm = max(1.0, float(np.abs(An).sum(axis=1).max()))
-        c = rng.choice([1.0] + [2.0 ** e for e in _SCALE_EXPS] + [1e-9])
+        c = rng.choice([1.0] + [2.0 ** e for e in _SCALE_EXPS + _FAR_EXPS] + [1e-9])
         ys = (np.array(y) * c).tolist()
         for name, f, p in (('euler', euler, 1), ('rungekutta', rungekutta, 4)):
             errs = []
@@ -2098,7 +2516,7 @@ def _gen_units(rng):
     g = rng.choice(['cd', 'an'])
     return {'op': 'units', 'coord': _gen_rows(rng, n, dim), 'poly': _gen_poly(rng, dim, tame=True).spec(), 'g': g,
             'kw': rng.choice([2.0 ** -6, 2.0 ** -8, 2.0 ** -10]) if g == 'cd' else rng.choice([None, 1.0, 0.5, 2.0]),
-            'integ': rng.choice(['euler', 'rk', 'rk']), 'exp': rng.choice(_SCALE_EXPS),
+            'integ': rng.choice(['euler', 'rk', 'rk']), 'exp': rng.choice(_UNIT_EXPS),
             'hrel': rng.choice([0.5, 0.25, 0.125]), 'climb': rng.random() < 0.5, 'r': rng.randint(1, 3), 'c': rng.randint(0, 2),
             'tolrel': rng.choice([0.0, 0.0, 0.5, 0.9])}
 
@@ -2130,6 +2548,15 @@ def _units_run(case):
                     E = obs['energy'] if not isinstance(obs['energy'], tuple) else []
                     climb = _Selection.want(list(E), 1) if (case['climb'] and n >= 3) else []
                 out = {'obs': obs}
+                # arc coordinates a hair (2^-20 of the length) outside [0, length] are refused in every unit of length
+                L = float(np.asarray(p.arccoord, dtype=float)[-1])
+                for where, arr in (('above', np.array([L / 2, L * (1 + 2.0 ** -20)])), ('below', np.array([-L * 2.0 ** -20, L / 2]))):
+                    try:
+                        p.interpolate_path(arr)
+                        return (f'interpolate_path({arr.tolist()}) on the string {sh.coord} (length {L!r}) returned a path: the arc '
+                                f'coordinate {where} the range [0, length] by 2^-20 of the length was not refused'), h
+                    except ValueError:
+                        pass
                 for name, fn in (('step', lambda: p.step(timestep=h, **({'climbindex': climb} if climb else {}))),
                                  ('relax', lambda: p.relax(relaxsteps=case['r'], climbsteps=case['c'], timestep=h, verbose=False,
                                                            tolerance=case['tolrel'] * float(np.abs(p.grad_energy()).max())))):
@@ -2251,11 +2678,94 @@ def _search_cd_arrays(ctx, rng, broken):
 
 
 def _search_paths(ctx, rng, broken):
-    """operation sequences on one path object; every read against the exact oracle of the tracked state and against
-    a freshly built path."""
+    """operation sequences on one or two path objects; every read against the exact oracle of the tracked state and
+    against a freshly built path. Every sixth sequence runs under other working units (nothing in a path converts units)."""
+    import atomman.unitconvert as uc
     for it in range(ctx.n(120, 1500) * (2 if broken else 1)):
         ops = _gen_sequence(rng, rng.randint(3, 8))
-        _run_sequence(ctx, ops, 'oracle', f'sequence {it}')
+        if it % 6 != 5:
+            _run_sequence(ctx, ops, 'oracle', f'sequence {it}')
+            continue
+        units = rng.choice([dict(length='nm', mass='kg', energy='J', charge='C'), dict(length='m', mass='g', time='ps', charge='e'),
+                            dict(seed='SI'), dict(seed=rng.randrange(10 ** 6))])
+        try:
+            uc.reset_units(**units)
+            _run_sequence(ctx, ops, 'oracle', f'sequence {it}, working units {units}')
+        finally:
+            uc.reset_units(length='angstrom', mass='amu', energy='eV', charge='e')
+
+
+_BAD_NEW = [  # (keyword arguments, exception, only for create_path)
+    ({'style': 'NEB'}, 'ValueError', True), ({'style': ''}, 'ValueError', True), ({'style': None}, 'ValueError', True),
+    ({'style': 'ism'}, 'ValueError', True),
+    ({'energyfxn': 3.0}, 'TypeError', False), ({'energyfxn': None}, 'TypeError', False), ({'energyfxn': 'energy'}, 'TypeError', False),
+    ({'gradientfxn': 'forward_difference'}, 'ValueError', False), ({'gradientfxn': ''}, 'ValueError', False),
+    ({'gradientfxn': 3}, 'TypeError', False), ({'gradientfxn': None}, 'TypeError', False),
+    ({'integratorfxn': 'verlet'}, 'ValueError', False), ({'integratorfxn': ''}, 'ValueError', False),
+    ({'integratorfxn': 0.5}, 'TypeError', False), ({'integratorfxn': None}, 'TypeError', False),
+    ({'gradientkwargs': [('shift', 0.001)]}, 'TypeError', False), ({'gradientkwargs': 'shift'}, 'TypeError', False),
+    ({'gradientkwargs': 0}, 'TypeError', False), ({'gradientkwargs': ()}, 'TypeError', False),
+]
+
+
+def _search_refusals(ctx, rng):
+    """the documented refusals of the constructors happen at construction, with the documented exception; the documented
+    spellings of the options are accepted and select the documented functions; BasePath leaves step/relax/unittangent to
+    its subclasses."""
+    np = _np()
+    import atomman.mep as mep
+    from atomman.mep.gradient import central_difference
+    from atomman.mep.integrator import euler, rungekutta
+    poly = Poly([0.5, 0.25], [1.0, 0.5], [0.0, 0.25], 0.5)
+    rows = [[-1.0, 0.0], [0.0, 0.5], [1.0, 0.25]]
+    for kwargs, exc, only_cp in _BAD_NEW:
+        for via, ctor in (('create_path', mep.create_path), ('ISMPath', mep.ISMPath), ('BasePath', mep.BasePath)):
+            if only_cp and via != 'create_path':
+                continue
+            kw = dict(kwargs)
+            efx = kw.pop('energyfxn', poly)
+            ctx.stats.case('oracle:refusal', (via, repr(kwargs)))
+            try:
+                ctor(np.array(rows), efx, **kw)
+                got = 'returned a path'
+            except Exception as e:  # noqa
+                got = type(e).__name__
+            if got != exc:
+                ctx.violate(f'path:refusal:{next(iter(kwargs))}', f'{via}(coord, {"energyfxn" if efx is poly else repr(efx)}, '
+                            + ', '.join(f'{k}={v!r}' for k, v in kw.items()) + f') {got if got == "returned a path" else "raised " + got} '
+                            f'instead of raising {exc} at construction', {'op': 'refusal', 'via': via, 'kwargs': {k: repr(v) for k, v in kwargs.items()}})
+    good = [({}, central_difference, rungekutta), ({'gradientfxn': 'cdiff', 'integratorfxn': 'rk'}, central_difference, rungekutta),
+            ({'gradientfxn': 'central_difference', 'integratorfxn': 'rungekutta'}, central_difference, rungekutta),
+            ({'integratorfxn': 'euler', 'gradientkwargs': {}}, central_difference, euler),
+            ({'integratorfxn': euler, 'gradientfxn': central_difference, 'gradientkwargs': None}, central_difference, euler),
+            ({'style': 'ISM'}, central_difference, rungekutta), ({'style': 'improved_string_method'}, central_difference, rungekutta)]
+    for kw, gfx, ifx in good:
+        for via, ctor in (('create_path', mep.create_path), ('ISMPath', mep.ISMPath)):
+            if 'style' in kw and via != 'create_path':
+                continue
+            ctx.stats.case('oracle:accepted', (via, repr(sorted(kw))))
+            try:
+                q = ctor(np.array(rows), poly, **kw)
+                ok = (type(q).__name__ == 'ISMPath' and q.gradientfxn is gfx and q.integratorfxn is ifx and q.energyfxn is poly
+                      and q.gradientkwargs == {})
+                what = f'returned {type(q).__name__} with gradientfxn {getattr(q.gradientfxn, "__name__", q.gradientfxn)}, integratorfxn ' \
+                       f'{getattr(q.integratorfxn, "__name__", q.integratorfxn)}, gradientkwargs {q.gradientkwargs}'
+            except Exception as e:  # noqa
+                ok, what = False, f'raised {type(e).__name__}: {e}'
+            if not ok:
+                ctx.violate('path:options', f'{via}(coord, energyfxn, ' + ', '.join(f'{k}={getattr(v, "__name__", v)!r}' for k, v in kw.items())
+                            + f') {what}; expected an ISMPath with {gfx.__name__}, {ifx.__name__}, no settings',
+                            {'op': 'refusal', 'via': via, 'kwargs': {k: repr(v) for k, v in kw.items()}})
+    base = mep.BasePath(np.array(rows), poly)
+    for name, call in (('step', lambda: base.step()), ('relax', lambda: base.relax()), ('unittangent', lambda: base.unittangent)):
+        ctx.stats.case('oracle:refusal', ('BasePath', name))
+        try:
+            call()
+            got = 'returned'
+        except Exception as e:  # noqa
+            got = type(e).__name__
+        if got != 'NotImplementedError':
+            ctx.violate('path:refusal:base', f'BasePath.{name} {got} instead of raising NotImplementedError', {'op': 'refusal', 'via': 'BasePath', 'kwargs': {'attr': name}})
 
 
 def _search_relax(ctx, rng):
@@ -2433,6 +2943,9 @@ def replay(ctx, payload):
         print('replay choice of climbing images ->', why or 'as documented')
         if why is not None:
             ctx.violate('relax:climb-selection', 'replayed case still fails: ' + why, r)
+    elif op == 'refusal':
+        _search_refusals(ctx, random.Random(0))
+        print('replay constructor refusals / option spellings ->', '; '.join(f.what[:300] for f in ctx.violations) or 'as documented')
     elif op == 'units':
         why, h = _units_run(r)
         print('replay path in two units of length ->', why or 'covariant')
